@@ -30,5 +30,6 @@ ENTRY = dict(
         'environment hypotheses (record hyps, all true in the theorems): h_lock, h_recov, h_mark; wf_init',
         'Print Assumptions of every theorem: closed under the global context',
     ],
+    search_rounds=1,
     assumptions=['unbounded theorems: no node lock of a live committer expires before it unlocks; priority logs are processed within the hour; no removal over a foreign unexpired claim; transactions update nodes only (removals: bounded exploration, refutations and conformance runs)'],
 )
